@@ -13,7 +13,25 @@ macro_rules! harness {
     };
 }
 
+/// Harness wrapper with the LMS layer replaced by its contract (crate::contracts): used where the
+/// key shape is symbolic and real trees (up to 2^25 leaves) are out of reach.
+macro_rules! harness_lms_contract {
+    ($(#[$m:meta])* fn $name:ident() unwind $unwind:literal $body:block) => {
+        $(#[$m])*
+        #[kani::proof]
+        #[kani::unwind($unwind)]
+        #[kani::stub(zeroize::optimization_barrier, crate::models::noop_barrier)]
+        #[kani::stub(<[u8; 32] as tinyvec::Array>::default, crate::models::fast_default)]
+        #[kani::stub(hbs_lms::verif_hooks::lms::generate_key_pair, crate::contracts::model_generate_key_pair)]
+        #[kani::stub(hbs_lms::verif_hooks::lms_signing::LmsSignature::sign, crate::contracts::model_lms_sign)]
+        pub fn $name() $body
+    };
+}
+
+pub mod c04;
 pub mod c06;
+pub mod c12;
+pub mod c13;
 
 harness! { fn selftest_smoke() unwind 3 {
     let x: u8 = kani::any();
